@@ -17,6 +17,8 @@ import (
 	"example.com/scion-time/core/client"
 	"example.com/scion-time/core/sync"
 	"example.com/scion-time/core/timebase"
+	"example.com/scion-time/net/scion"
+	"example.com/scion-time/net/udp"
 
 	"verif.local/sim/simclock"
 	"verif.local/sim/simcore"
@@ -29,6 +31,12 @@ type RootHooks struct {
 	NewNTPReferenceClockIP func(log *slog.Logger, localAddr, remoteAddr *net.UDPAddr, dscp uint8, authModes []string,
 		ntskeServer string, insecureSkipVerify bool) client.ReferenceClock
 	DefaultSyncConfig func() sync.Config
+	// SyncConfigFrom passes settings as the configuration file gives them (factors, seconds)
+	// through timeservice.go's syncConfig.
+	SyncConfigFrom func(refImpact, peerImpact, cutoffSec, timeoutSec, intervalSec float64) sync.Config
+	// NewNTPReferenceClockSCION is timeservice.go's SCION reference clock (seven SCIONClients in
+	// interleaved mode with Ntimed filters) with the given Pather; it also returns the clients.
+	NewNTPReferenceClockSCION func(log *slog.Logger, localAddr, remoteAddr udp.UDPAddr, dscp uint8, pather *scion.Pather) (client.ReferenceClock, []*client.SCIONClient)
 }
 
 var Root RootHooks
